@@ -718,7 +718,12 @@ impl OperationMetrics {
         if self.count == 0 {
             Duration::ZERO
         } else {
-            self.total_duration / self.count as u32
+            // divide by the full 64-bit count (`count as u32` is 0 for count = 2^32)
+            let nanos = self.total_duration.as_nanos() / u128::from(self.count);
+            Duration::new(
+                (nanos / 1_000_000_000) as u64,
+                (nanos % 1_000_000_000) as u32,
+            )
         }
     }
 
